@@ -428,7 +428,11 @@ func (s *SIP) ParseHeader(header []byte) (err error) {
 	if header[0] == '\t' || header[0] == ' ' {
 
 		header = bytes.TrimSpace(header)
-		s.Headers[s.lastHeaderParsed][len(s.Headers[s.lastHeaderParsed])-1] += fmt.Sprintf(" %s", string(header))
+		last := s.Headers[s.lastHeaderParsed]
+		if len(last) == 0 {
+			return fmt.Errorf("SIP header continuation line without a preceding header")
+		}
+		last[len(last)-1] += fmt.Sprintf(" %s", string(header))
 		return
 	}
 
@@ -440,6 +444,10 @@ func (s *SIP) ParseHeader(header []byte) (err error) {
 		headerValue := string(bytes.Trim(header[index+1:], " "))
 
 		// Add header to object
+		if s.Headers == nil {
+			// The layer was not created through NewSIP
+			s.Headers = make(map[string][]string)
+		}
 		s.Headers[headerName] = append(s.Headers[headerName], headerValue)
 		s.lastHeaderParsed = headerName
 
